@@ -122,7 +122,8 @@ pub fn run_workload(seed: u64, w: &Workload) -> Engine {
                     e.submit(i, kind, with_enr);
                 }
                 40..=49 if w.bursts => {
-                    let n = 2 + e.rng.usize(10);
+                    // now and then more requests at once than the channel to the socket task holds
+                    let n = if e.rng.chance(1, 6) { 31 + e.rng.usize(40) } else { 2 + e.rng.usize(10) };
                     for _ in 0..n {
                         let kind = *e.rng.pick(&[1u8, 3, 5]);
                         e.submit(i, kind, true);
